@@ -20,8 +20,9 @@ type objectClass struct {
 }
 
 func objectEnumerate(obj *object, all bool, each func(string) bool) {
-	for _, name := range obj.propertyOrder {
-		if all || obj.property[name].enumerable() {
+	// a copy: deleteProperty shifts propertyOrder in place while a for-in body runs
+	for _, name := range append([]string(nil), obj.propertyOrder...) {
+		if prop, exists := obj.property[name]; exists && (all || prop.enumerable()) {
 			if !each(name) {
 				return
 			}
